@@ -152,6 +152,7 @@ class Formulas:
         self._back = None
         self.simp = simp_deep or (lambda t: t)
         self.unknown = []  # reasons why some formula is imprecise
+        self.expand = True  # expand variant tests of multi-definition locals through their definitions
 
     # ---- back edges (DFS based)
     def back_edges(self):
@@ -212,7 +213,12 @@ class Formulas:
                 for b in bbs:
                     if a != b and self.cfg.dominates(a, b):
                         self.unknown.append("local _%d is reassigned on one path (bb%d dominates bb%d)" % (l, a, b))
-                        f = self.atom_of_term(self.terms.local(l, 8))
+                        if fn.local_ty(l) == "bool" and all(d[0] == "stmt" and isinstance(d[3]["rv"].get("use"), dict)
+                                                            and "k" in d[3]["rv"]["use"] for d in defs):
+                            # a mutable boolean flag (`let mut seen = false; ... seen = true;`): one named atom per local
+                            f = atom("flag:%s" % (fn.local_name(l) or "_%d" % l), ("flag", l, fn.local_name(l)))
+                        else:
+                            f = self.atom_of_term(self.terms.local(l, 8))
                         self._val[l] = f
                         return f
         for d in defs:
@@ -284,7 +290,7 @@ class Formulas:
         listed = [v for v, _ in targets]
 
         expanded = None
-        if names and len(names) == 2 and cond_t[0] == "discr":
+        if self.expand and names and len(names) == 2 and cond_t[0] == "discr":
             expanded = self.variant_formula(t["switch"], names)
 
         def a_for(v):
@@ -408,6 +414,33 @@ class Formulas:
             alts.append(f_and(self.reach(p), self.edge_cond(p, bb)))
         f = f_or(*alts)
         self._reach[bb] = f
+        return f
+
+
+    def reach_from(self, start, bb, _memo=None):
+        """condition to get from the entry of block `start` to block `bb` along forward edges (back edges cut):
+        the path condition of one loop iteration when `start` is the loop header."""
+        memo = self._rf.setdefault(start, {}) if hasattr(self, "_rf") else None
+        if memo is None:
+            self._rf = {start: {}}
+            memo = self._rf[start]
+        if bb in memo:
+            return memo[bb]
+        if bb == start:
+            memo[bb] = TRUE
+            return TRUE
+        memo[bb] = FALSE
+        back = self.back_edges()
+        alts = []
+        for p in self.cfg.pred[bb]:
+            if (p, bb) in back or p not in self.cfg.reach:
+                continue
+            rp = self.reach_from(start, p)
+            if rp == FALSE:
+                continue
+            alts.append(f_and(rp, self.edge_cond(p, bb)))
+        f = f_or(*alts)
+        memo[bb] = f
         return f
 
 
